@@ -21,6 +21,18 @@ use unic_locale_impl::Locale;
 
 type Op = (String, Box<dyn Fn() -> String + Send + Sync>);
 
+/// `total` mode (property C01): results are not compared, only termination matters (a panic, a
+/// deadlock or a livelock under some schedule is still reported by shuttle)
+static COMPARE: std::sync::atomic::AtomicBool = std::sync::atomic::AtomicBool::new(true);
+macro_rules! check_eq {
+    ($a:expr, $b:expr, $($arg:tt)+) => {{
+        let (a, b) = ($a, $b);
+        if COMPARE.load(std::sync::atomic::Ordering::Relaxed) {
+            assert_eq!(a, b, $($arg)+);
+        }
+    }};
+}
+
 fn show(t: Option<(unic_langid_impl::subtags::Language, Option<unic_langid_impl::subtags::Script>, Option<unic_langid_impl::subtags::Region>)>) -> String {
     match t {
         None => "None".into(),
@@ -105,8 +117,8 @@ fn config(dir: &str) -> shuttle::Config {
 fn body(ops: &Arc<Vec<Op>>, reset: &Arc<Box<dyn Fn() -> String + Send + Sync>>, exp: &Arc<Vec<String>>, exp_reset: &Arc<String>, idx: &[usize]) -> impl Fn() + Send + Sync + 'static {
     let (ops, reset, exp, exp_reset, idx) = (ops.clone(), reset.clone(), exp.clone(), exp_reset.clone(), idx.to_vec());
     move || {
-        assert_eq!(reset(), **exp_reset, "reset operation (warm-up)");
-        assert_eq!((ops[idx[0]].1)(), exp[idx[0]], "{} (warm-up)", ops[idx[0]].0);
+        check_eq!(reset(), exp_reset.to_string(), "reset operation (warm-up)");
+        check_eq!((ops[idx[0]].1)(), exp[idx[0]].clone(), "{} (warm-up)", ops[idx[0]].0);
         let hs: Vec<_> = idx
             .iter()
             .map(|&i| {
@@ -116,10 +128,10 @@ fn body(ops: &Arc<Vec<Op>>, reset: &Arc<Box<dyn Fn() -> String + Send + Sync>>, 
             .collect();
         let rs: Vec<String> = hs.into_iter().map(|h| h.join().unwrap()).collect();
         for (n, &i) in idx.iter().enumerate() {
-            assert_eq!(rs[n], exp[i], "{} (thread {} of {})", ops[i].0, n + 1, idx.len());
+            check_eq!(rs[n].clone(), exp[i].clone(), "{} (thread {} of {})", ops[i].0, n + 1, idx.len());
         }
         for &i in &idx {
-            assert_eq!((ops[i].1)(), exp[i], "{} (after the threads joined)", ops[i].0);
+            check_eq!((ops[i].1)(), exp[i].clone(), "{} (after the threads joined)", ops[i].0);
         }
     }
 }
@@ -176,7 +188,7 @@ fn sequential(ops: &Arc<Vec<Op>>, reset: &Arc<Box<dyn Fn() -> String + Send + Sy
         return Err(format!("sequential run panicked: {}", panic_text(e)));
     }
     let g = out.lock().unwrap();
-    if !g.2.is_empty() {
+    if !g.2.is_empty() && COMPARE.load(std::sync::atomic::Ordering::Relaxed) {
         return Err(format!("history-dependent results in a sequential run: {}", g.2.join("; ")));
     }
     Ok((g.0.clone(), g.1.clone()))
@@ -189,6 +201,9 @@ fn main() {
         std::process::exit(2);
     }
     let family = args[2].as_str();
+    if args.iter().any(|a| a == "--total") {
+        COMPARE.store(false, std::sync::atomic::Ordering::Relaxed);
+    }
     let ops = Arc::new(ops(family));
     let reset = Arc::new(reset_op());
     match args[1].as_str() {
